@@ -3,9 +3,11 @@
 // sections of queue::_mx; here they are called one by one (-fno-access-control) with the interfering operation of the
 // "other thread" executed in between - a legal interleaving of the real multi-threaded program.
 // Build: g++ -std=c++20 -I/repo/src -fno-access-control c16_close_race.cpp -lpthread
-// Usage: c16_close_race [mode] [name=value ...]    (arguments supplied by tools/replay.py are accepted and ignored:
-//        the scenario is input independent - any published value shows it)
-// Exit 0: the subscriber reported end-of-stream (correct).  Exit 1: the subscriber reported a value it already consumed.
+// Usage: c16_close_race [mode] [name=value ...]   modes: all_values (default) | skip (both skipping modes; needs -D_GLIBCXX_ASSERTIONS to
+//        turn the out-of-range access on the empty deque into an abort).  name=value arguments supplied by tools/replay.py are
+//        accepted; only in_value is used - the scenario is input independent, any published value shows it.
+// Exit 0: the subscriber reported end-of-stream (correct).  Exit 1: it reported a value it had already consumed (same position).
+// Abort (SIGABRT, exit != 0) in mode skip: get_value_lk indexed the EMPTY deque (_q[0] / _q[size()-1]).
 #include <cocls/publisher.h>
 #include <cstdio>
 #include <cstring>
@@ -54,8 +56,38 @@ static int scenario_control(int v) {
     return (r1 && !rdy && susp && woken && !r2) ? 0 : 3;
 }
 
+// skipping modes: the same window.  (a) after one consumed item: the item is delivered again at an unchanged position
+// ("positions strictly increase" violated); (b) nothing published yet: get_value_lk indexes the empty deque (undefined behaviour).
+static int scenario_skip(subscribtion_type t, int v) {
+    int bad = 0;
+    {
+        publisher<int> pub; subscriber<int> sub(pub, t);
+        pub.publish(v);
+        bool r1 = sub.next(); std::size_t p1 = sub.position();
+        bool rdy = sub.ready(); pub.close(); sync_awaiter awt; bool susp = sub.subscribe(&awt); bool r2 = sub.check_next();
+        std::size_t p2 = sub.position();
+        std::printf("mode %d: next=%d pos=%zu | ready=%d suspended=%d next2=%d pos=%zu\n", (int)t, r1, p1, rdy, susp, r2, p2);
+        if (r2 && p2 <= p1) { std::printf("DEFECT: a value was delivered without moving forward (position %zu again)\n", p2); bad = 1; }
+    }
+    {
+        publisher<int> pub; subscriber<int> sub(pub, t);
+        bool rdy = sub.ready(); pub.close(); sync_awaiter awt; bool susp = sub.subscribe(&awt);
+        std::printf("mode %d, nothing published: ready=%d suspended=%d, now check_next() ...\n", (int)t, rdy, susp); std::fflush(stdout);
+        bool r2 = sub.check_next();          // unfixed: _q[0] resp. _q[size()-1] on an EMPTY deque
+        std::printf("  next=%d\n", r2);
+        if (r2) { std::printf("DEFECT: a value was delivered though nothing was ever published\n"); bad = 1; }
+    }
+    return bad;
+}
+
 int main(int argc, char **argv) {
     int v = 10;
+    if (argc > 1 && !std::strcmp(argv[1], "skip")) {
+        for (int i = 2; i < argc; i++) if (!std::strncmp(argv[i], "in_value=", 9)) v = std::atoi(argv[i] + 9);
+        int a = scenario_skip(subscribtion_type::skip_to_recent, v);
+        int b = scenario_skip(subscribtion_type::skip_if_behind, v);
+        return (a || b) ? 1 : 0;
+    }
     for (int i = 1; i < argc; i++) if (!std::strncmp(argv[i], "in_value=", 9)) v = std::atoi(argv[i] + 9);
     int c = scenario_control(v);
     if (c) { std::printf("control scenario failed (%d)\n", c); return c; }
